@@ -2,7 +2,7 @@
 # apply_fix.sh <fix-basename> <property>: apply /verif/fixes/<name>.diff to /repo, build, full suite, commit with the .msg,
 # put the commit hash into known/<property>.json (FIXME), run the check.
 set -u
-NAME=$1; PROP=$2
+NAME=$1; PROP=$2; TOKEN=${3:-FIXME}
 export GOFLAGS=-mod=mod GOPROXY=off GOSUMDB=off GOTOOLCHAIN=local
 cd /repo || exit 1
 git apply --check /verif/fixes/$NAME.diff || { echo "patch does not apply"; exit 1; }
@@ -16,4 +16,4 @@ done
 if [ -s /tmp/fix_suite.log ]; then echo "SUITE FAILS; reverting"; git checkout -- .; git clean -fdq; exit 1; fi
 git add -A && git commit -q -F /verif/fixes/$NAME.msg
 H=$(git rev-parse --short HEAD); echo "committed $H: $(git log -1 --format=%s)"
-cd /verif && sed -i "s/FIXME/$H/g" known/$PROP.json && ./check $PROP 2>&1 | grep -v KNOWN | tail -2
+cd /verif && sed -i "s/\"$TOKEN\"/\"$H\"/g" known/$PROP.json && ./check $PROP 2>&1 | grep -v KNOWN | tail -2
